@@ -21,14 +21,7 @@ namespace Netflow.Props
 open Netflow Netflow.G2 Preds
 
 /-- the skeleton read from the source is the modelled one: all 29 extracted items at once -/
-theorem Ctl_skeleton_is_modelled :
-    Generated.ctl =
-      { gateFirst := true, v5ErrVersion := 5, v7ErrVersion := 7, v9ErrVersion := 9, ipErrVersion := 10,
-        v9SetSub := 4, v9Arms := [.tmpl, .optTmpl, .optData, .data], v9ScopeDiv := 4, v9OptDiv := 4, v9SkipEmpty := true,
-        v9ZeroIsErr := true, v9SizeSat := 65535, ipMsgSub := 16, ipSetSub := 4, ipArms := [.tmpl, .optTmpl, .data, .optData],
-        ipTmplCmp := .lt, ipTmplCmp2 := .ne, ipEntCmp := .gt, ipEntThr := 32767, ipEntSub := 32768, ipValidCmp := .gt,
-        ipValidThr := 0, ipVarLen := 65535, ipVarEscCmp := .eq, ipVarEsc := 255, ipBreakCmp1 := .eq, ipBreakVal := 0,
-        ipBreakCmp2 := .lt, ipEmptyErr := true } := by decide
+theorem Ctl_skeleton_is_modelled : Generated.ctl = Ctl.std := by decide
 
 /-- the regenerated skeleton, run as a parser, IS the hand-written model (every config, state, buffer) -/
 theorem Ctl_model (c : Config) (st : PState) (buf : Bytes) :
